@@ -74,3 +74,9 @@ package quorum
 //@   after quorum.MajorityConfig.CommittedIndex #2 assume cnt_mono(c[1], id :: ack(l, id) >= result, id :: ack(l, id) >= idx0) && cnt_mono(c[0], id :: ack(l, id) >= idx0, id :: ack(l, id) >= result)
 //@   ensures #joint-min [C12 C06 C10] jointCommittedSpec(c, l, result)
 //@   ensures #is-an-ack [C11 C14] (len(c[0]) > 0 || len(c[1]) > 0) ==> (result == 0 || (exists id uint64 :: (has(c[0], id) || has(c[1], id)) && ack(l, id) == result))
+
+//@ func quorum.JointConfig.IDs [C13 C19]
+//@   ensures #union fresh(result) && result != nil && (forall id uint64 :: has(result, id) <==> (has(c[0], id) || has(c[1], id)))
+//@   loop 1 invariant #outer allocframe("M$map[uint64]struct{}") && 0 <= iter && iter <= 2 && m != nil && fresh(m)
+//@        && (forall id uint64 :: has(m, id) <==> ((iter >= 1 && has(c[0], id)) || (iter >= 2 && has(c[1], id))))
+//@   loop 2 invariant #inner allocframe("M$map[uint64]struct{}") && 0 <= slice_iter && slice_iter < 2 && m != nil && fresh(m) && (forall id uint64 :: has(m, id) <==> ((slice_iter >= 1 && has(c[0], id)) || (slice_iter >= 2 && has(c[1], id)) || seen(id)))
